@@ -53,6 +53,13 @@ def load_enum_decls(src_dir):
 
 
 @dataclass(frozen=True)
+class MapIt:
+    """Iterator::map over an enumerate of a slice iterator."""
+    it: object
+    clos: object
+
+
+@dataclass(frozen=True)
 class TakeRd:
     """Read::take(n) over a reference to a reader."""
     inner: object
@@ -339,6 +346,32 @@ def make_models():
         ex.write_ref(st, base, vec.with_elements(tuple(items)) if hasattr(vec, "with_elements") else ("agg", tuple(items)))
         return UNIT
 
+    def m_bitop(op):
+        def f(ex, st, args, dest_ty, fname):
+            a, b = deref_all(ex, st, args[0]), deref_all(ex, st, args[1])
+            return a ^ b if op == "xor" else a & b if op == "and" else a | b
+        return f
+
+    def m_iter_map(ex, st, args, dest_ty, fname):
+        return MapIt(args[0], args[1])
+
+    def m_extend_map(ex, st, args, dest_ty, fname):
+        ra = ref_to(ex, st, args[0])
+        a = ex.deref(ra, st)
+        mp = args[1]
+        e = mp.it
+        f = ex.closure_function(mp.clos[1])
+        base = e.it.base
+        items = list(ex.elements(ex.deref(base, st)))
+        SCRATCH = -992
+        out = []
+        for i in range(e.it.pos, len(items)):
+            st.heap[SCRATCH] = {0: items[i]}
+            out.append(ex.call_inplace(st, f, [("refval", mp.clos), ("agg", (e.count + i - e.it.pos, ("ref", ("local", SCRATCH, 0, ()))))]))
+        st.heap.pop(SCRATCH, None)
+        ex.write_ref(st, ra, VecM(tuple(a.items) + tuple(out)))
+        return UNIT
+
     def m_extend_iter(ex, st, args, dest_ty, fname):
         ra = ref_to(ex, st, args[0])
         a = ex.deref(ra, st)
@@ -460,6 +493,11 @@ def make_models():
         M(r"^<std::slice::Iter(Mut)?<'_, u8> as Iterator>::enumerate$", m_enumerate),
         M(r"^<Enumerate<std::slice::IterMut<'_, u8>> as Iterator>::for_each::<", m_for_each),
         M(r"^<Vec<u8> as Extend<&u8>>::extend::<std::slice::Iter<'_, u8>>$", m_extend_iter),
+        M(r"^<&?u8 as BitXor<&?u8>>::bitxor$", m_bitop("xor")),
+        M(r"^<&?u8 as BitAnd<&?u8>>::bitand$", m_bitop("and")),
+        M(r"^<&?u8 as BitOr<&?u8>>::bitor$", m_bitop("or")),
+        M(r"^<Enumerate<std::slice::Iter<'_, u8>> as Iterator>::map::<u8, ", m_iter_map),
+        M(r"^<Vec<u8> as Extend<u8>>::extend::<Map<Enumerate<std::slice::Iter<'_, u8>>, ", m_extend_map),
         M(r"^<std::slice::Iter<'_, Frame> as Iterator>::fold::<Vec<u8>, ", m_fold),
         M(r"^core::slice::<impl \[Frame\]>::last$", m_last),
         M(r"^core::slice::<impl \[Frame\]>::first$", m_first),
